@@ -5,7 +5,7 @@ import YowsupVerif.Lemmas.E2ETokHandled
 namespace Yow.E2E
 
 section
-variable {accts : List Acct} {groups : List (Nat × List Acct)} {L : List (Acct × Node)} {V : View} {x : Acct}
+variable {ex : Bool} {accts : List Acct} {groups : List (Nat × List Acct)} {L : List (Acct × Node)} {V : View} {x : Acct}
 
 theorem nonce_lt_of_pos {k n : Nat} {ms : List Stanza} (hc : ∀ st ∈ ms, CtsOK k st) (hp : 1 ≤ sumMap (nOf n) ms) : n < k := by
   obtain ⟨st, hst, hpos⟩ := exists_of_sumMap_pos (f := nOf n) (l := ms) (by omega)
@@ -15,7 +15,7 @@ theorem nonce_lt_of_pos {k n : Nat} {ms : List Stanza} (hc : ∀ st ∈ ms, CtsO
 
 /-- the recipient took the stanzas `ms` (from its queue, or from what was parked) and handled them -/
 theorem RecipStep.ofHandled {cons rest ms : List Stanza} {c1 c' : Client} {out : List Stanza}
-    (hT : TV accts groups L V) (hx : x ∈ accts) (hq : V.outb x = cons ++ rest) (hh : Handled c1 ms c' out)
+    (hT : TV ex accts groups L V) (hx : x ∈ accts) (hq : V.outb x = cons ++ rest) (hh : Handled c1 ms c' out)
     (s_sentQ : c1.sentQueue = (V.cl x).sentQueue) (s_receipts : c1.receipts = (V.cl x).receipts)
     (s_ownSK : c1.ownSK = (V.cl x).ownSK) (s_shown : c1.shown = (V.cl x).shown)
     (s_seen : c1.seen = (V.cl x).seen) (s_seenSK : c1.seenSK = (V.cl x).seenSK)
@@ -114,7 +114,7 @@ theorem RecipStep.ofHandled {cons rest ms : List Stanza} {c1 c' : Client} {out :
 /-- a message stanza is parked and the sender's keys are asked for -/
 theorem RecipStep.ofPark {rest : List Stanza} {st : Stanza} {id : Nat} {peer : Dest} {part : Option Acct} {im : Bool}
     {encs : List (Option Acct × Ct)} {pl : Option Payload} {sender : Acct} {c' : Client} {out : List Stanza}
-    (hT : TV accts groups L V) (hx : x ∈ accts) (hst : st = .msg id peer part im encs pl) (hq : V.outb x = [st] ++ rest)
+    (hT : TV ex accts groups L V) (hx : x ∈ accts) (hst : st = .msg id peer part im encs pl) (hq : V.outb x = [st] ++ rest)
     (hlt : ∀ e ∈ (V.cl x).iqReg, e.1 < (V.cl x).nextIq)
     (hc : OutC (V.cl x) st peer part sender c' out) :
     RecipStep accts groups L V x [st] rest c' out V.nextCtr := by
